@@ -190,3 +190,24 @@ def read_stage(ctx, files, op='sxg.read'):
     need_lists = [[n] if n and n.startswith('url:') else [] for n in needs]
     tabs = oracle_tables(ctx, need_lists, None)
     return ctx.both([f'{op} {f} {u}' for f, (u, c, s) in zip(files, tabs)])
+
+
+def signed_checks(ctx, signed, certurl, vurl, date, expires, tag):
+    """signed: [(exchange as signed by the real code, key dict)]. The signing step against the model: the Signature header the library
+    produced is the model's header for the signature bytes it contains, and those bytes verify (independent oracle: crypto/ecdsa on the
+    certificate's key) over the MODEL's signed message. Half of the sxg.sign calls of a process use a Signer that signed before."""
+    import re as _re, base64 as _b64, hashlib as _hl
+    chk = []
+    for e, k in signed:
+        hdr = unhex(e[6])
+        mm = _re.search(rb'sig=\*([^*]*)\*', hdr)
+        if not mm: continue
+        sigb = _b64.b64decode(mm.group(1) + b'=' * (-len(mm.group(1)) % 4))
+        certsha = _hl.sha256(unhex(k['cert'])).hexdigest()
+        chk.append((e, k, sigb, certsha))
+    hres = ctx.model([f'sxg.sigheader {e[0]} {hexs(sigb)} {hexs(vurl)} {hexs(certurl)} {cs} {date} {expires}' for e, k, sigb, cs in chk])
+    mres = ctx.model([f'sxg.msg {exs(e)} {cs} {hexs(vurl)} {date} {expires}' for e, k, sigb, cs in chk])
+    ores = ctx.go([f'oracle.sig {k["cert"]} {m_.split(" ")[1]} {hexs(sigb)}' if m_ and m_.startswith('ok ') else 'oracle.status 0' for (e, k, sigb, cs), m_ in zip(chk, mres)])
+    for (e, k, sigb, cs), h_, o_ in zip(chk, hres, ores):
+        ctx.records.append((f'{tag}.sign-header {" ".join(e[:6])}', 'ok ' + e[6], h_))
+        ctx.records.append((f'{tag}.sign-signature-verifies-over-model-message {" ".join(e[:3])} {e[6][:40]}', o_, '1'))
